@@ -929,6 +929,8 @@ def run(res, tier, seed, replay_script=None):
     else:
         gens = corpus_cases(r, tier)
         n = {"quick": 5000, "thorough": 40000}[tier] * (3 if proof_broken else 1)
+        if os.environ.get("VERIF_C06_CASES"):           # aid for trying mutants quickly; not used by ./check runs that count
+            n = int(os.environ["VERIF_C06_CASES"])
         for i in range(n):
             force = "construct" if i % 4 == 0 else None
             gens.append(gen_case(r, "h%d" % i, tier, force=force))
@@ -981,7 +983,7 @@ def run(res, tier, seed, replay_script=None):
     t0 = time.time()
     # ---- the witnesses and the first cases once more under AddressSanitizer/UBSan: a reader that leaves a cache too small shows as an
     #      out-of-bounds access on the restored grid (judged by the same rules; the model tie is not repeated)
-    nas = 0 if replay_script else {"quick": 700, "thorough": 6000}[tier]
+    nas = 0 if (replay_script or os.environ.get("VERIF_C06_NOSAN")) else {"quick": 400, "thorough": 5000}[tier]
     astats = None
     if nas:
         adrv = vlib.build_driver("iodrv", "asan")
@@ -989,7 +991,7 @@ def run(res, tier, seed, replay_script=None):
         shutil.rmtree(awd, ignore_errors=True)
         os.makedirs(awd, exist_ok=True)
         open(os.path.join(awd, "custom.table"), "w").write(CUSTOM_TABLE)
-        env = dict(os.environ, ASAN_OPTIONS="detect_leaks=0:abort_on_error=0:exitcode=1", UBSAN_OPTIONS="print_stacktrace=1")
+        env = dict(os.environ, ASAN_OPTIONS="detect_leaks=0:abort_on_error=0:exitcode=1:symbolize=0", UBSAN_OPTIONS="print_stacktrace=0:symbolize=0")
         arcs, acases = run_driver_parallel(adrv, gens[:nas], awd, timeout={"quick": 900, "thorough": 3000}[tier], case_timeout=60, env=env)
         astats = dict(stats, observations=0, roundtrips=0, roundtrips_equal=0, continuations=0, continuations_equal=0, states={}, to_confirm=[],
                       library_failures_outside_io={}, library_failure_examples={}, drv=adrv, wd=awd)
